@@ -146,13 +146,59 @@ def _add_bound(bounds, lit):
             bounds.add((tuple(r3[:i]) + (r3[i] + 1,) + (0, 0, 0))[:3])
 
 
+def atoms_agree(texts, env) -> bool:
+    """does every atom occurring in the texts, taken ALONE, evaluate in env as packaging evaluates it?  (atoms on `extra` are skipped:
+    they involve no version)  The recorded defect nonfinal-env is about COMBINATIONS only; an atom that already disagrees alone is new."""
+    from packaging.markers import Marker
+    seen = set()
+
+    def walk(node):
+        if isinstance(node, tuple):
+            yield node
+        elif isinstance(node, list):
+            for x in node:
+                yield from walk(x)
+
+    for t in texts:
+        if not t:
+            continue
+        try:
+            tree = Marker(t)._markers
+        except Exception:  # noqa: BLE001   (a library rendering packaging cannot read: not this class)
+            return False
+        for lhs, op, rhs in walk(tree):
+            atom = f"{lhs.serialize()} {op.serialize()} {rhs.serialize()}"
+            if atom in seen or "extra" in (getattr(lhs, "value", ""), getattr(rhs, "value", "")):
+                continue
+            seen.add(atom)
+            pe = {k: v for k, v in env.items() if isinstance(v, str)}
+            try:
+                exp = Marker(atom).evaluate(pe)
+            except Exception:  # noqa: BLE001
+                continue
+            try:
+                got = parse(atom).evaluate(dict(env))
+            except Exception:  # noqa: BLE001
+                return False
+            if bool(exp) != bool(got):
+                return False
+    return True
+
+
+def pv_pair_atoms(texts) -> bool:
+    """is there anything a python_version atom could be merged with: a python_full_version atom or a second python_version atom?"""
+    import re
+    joined = " ".join(t or "" for t in texts)
+    return "python_full_version" in joined or len(re.findall(r"\bpython_version\b", joined)) >= 2
+
+
 def env_class(texts, env) -> str:
     """class prefix for findings that are instances of the recorded `in`-list defect: an atom
     `python_version [not] in "<list>"` whose environment value is a SUBSTRING of the list text but not one of
     its comma-separated elements (e.g. 3.1 against "3.9, 3.10"): evaluation is PEP 508 string containment,
     the specifier view treats the list as a set of versions"""
     import re
-    if pv_long_operand(texts):
+    if pv_long_operand(texts) and pv_pair_atoms(texts):
         return "pv-long-operand|"
     for var in ("python_full_version", "implementation_version", "platform_release"):
         val = env.get(var)
@@ -170,7 +216,7 @@ def env_class(texts, env) -> str:
                     for lst in re.findall(nm + r'\s*(?:not\s+in|in)\s*"([^"]*)"', t or ""):
                         for lit in lst.split(","):
                             _add_bound(bounds, lit)
-            if base in bounds:
+            if base in bounds and atoms_agree(texts, env):
                 return "nonfinal-env|"
     for t in texts:
         for var, lst in re.findall(r'(python_version|python_full_version) (?:not in|in) "([^"]*)"', t or ""):
@@ -595,7 +641,7 @@ def oracle_c11(ctx: Ctx):
     for op in ("in", "not in"):
         atoms += [("python_version", op, "3.6, 3.7"), ("python_version", op, "2.7"), ("python_version", op, "3.6,3.10, 3.11"), ("python_version", op, "3.9")]
     # literal-on-the-left spellings of the comparison atoms (stored with the reflected operator)
-    rev_atoms = [(n, o, l, True) for (n, o, l) in atoms if o in ("==", "!=", "<", "<=", ">", ">=") and "*" not in l]
+    rev_atoms = [(n, o, l, True) for (n, o, l) in atoms if o in ("==", "!=", "<", "<=", ">", ">=", "~=")]
     for name, op, lit, *rev in [a + (False,) for a in atoms] + rev_atoms:
         rev = bool(rev and rev[0])
         m = MarkerExpression(name, op, lit, rev)
@@ -616,7 +662,15 @@ def oracle_c11(ctx: Ctx):
                 break
             if a != b:
                 from packaging.version import Version as _V
-                cls = "rev-suffix-view|" if rev and op in ("<", ">") and (_V(lit).is_prerelease or _V(lit).is_postrelease) else ""
+                # the recorded class: literal-on-the-left atoms that are never merged (so that no result depends on their view):
+                # "lit" ~= name, wildcard literals, and "lit" < / > name with a pre/post-release literal at an interpreter of the literal's own release
+                cls = ""
+                if rev and (op == "~=" or "*" in lit):
+                    cls = "rev-suffix-view|"
+                elif rev and op in ("<", ">") and (_V(lit).is_prerelease or _V(lit).is_postrelease):
+                    pad = lambda r: (tuple(r) + (0, 0, 0))[:3]
+                    if pad(_V(val).release) == pad(_V(lit).release):
+                        cls = "rev-suffix-view|"
                 ctx.finding(f"{cls}{env_class([str(m)], env)}view|{name}|{op}|{lit}|{'rev' if rev else ''}", "the specifier view admits a different set than the atom evaluates true on",
                             {"atom": str(m), "value": val}, a, {"specifier": str(spec), "admits": b})
                 break
